@@ -9,6 +9,7 @@
    Python exceptions are values (CCrash ..., HCrash, HwAssert ...).            *)
 From Coq Require Import List NArith Ascii Bool.
 From SV Require Import Lib.Bytes.
+From SV Require Lib.DialogueLib.      (* only DialogueLib.chunks: the readline model shared with C13 *)
 Import ListNotations.
 Local Open Scope N_scope.
 
@@ -258,25 +259,33 @@ Definition onhostlist (hostlist : bytes) : list bytes * outcome :=
   onhostlist_loop (tokens hostlist).
 
 (* ================================================================== *)
-(* 5. firewall.py:368-381  the helper's HOST branch; :50-51 hosts line  *)
+(* 5. firewall.py:226-237 _read_next_string_line, :370-381 the helper's  *)
+(*    HOST loop; :50-51 the hosts line                                   *)
 (*
-     line = stdin.readline(128); if not line: return
-     line = line.decode('ASCII').strip()
-     if not line: return
-     if line.startswith('HOST '):
-         (name, ip) = line[5:].split(',', 1); hostmap[name] = ip; rewrite_etc_hosts(...)
-     elif line: if not method.firewall_command(line): raise Fatal(...)
+     def _read_next_string_line():
+         line = stdin.readline()            # as found: stdin.readline(128)   (F5)
+         if not line: return
+         return line.decode('ASCII').strip()
+     while 1:
+         line = _read_next_string_line()
+         if not line: return
+         if line.startswith('HOST '):
+             (name, ip) = line[5:].split(',', 1); hostmap[name] = ip; rewrite_etc_hosts(...)
+         elif line: if not method.firewall_command(line): raise Fatal(...)
 
-   `raw` is what ONE readline(128) returned; that it is a whole HOST line is a
-   hypothesis of the theorems (length <= 128, F5/C13).                          *)
+   The reader's limit is the parameter `lim` of helper_stdin / helper_run:
+   None = readline() (whole lines, the code today), Some n = readline(n).  The
+   successive results of readline are DialogueLib.chunks, the reader model shared
+   with C13 (Model/Dialogue.v helper_main).  The statements of Props/C19.v pass
+   Gen.Consts.fw_readline_limit, regenerated from firewall.py on every run.     *)
 
 Inductive helper_result :=
 | HSet (name ip : bytes)            (* hostmap[name] = ip *)
 | HReturn                           (* EOF or blank line: main() returns, firewall undone *)
 | HFatal                            (* 'expected command, got ...' (no method command matches) *)
-| HCrash (cls : crash_class)
-| HSplit.                           (* the line exceeds readline(128): read in pieces (F5, property C13) *)
+| HCrash (cls : crash_class).
 
+(* what the loop does with ONE result `raw` of readline *)
 Definition helper_line (raw : bytes) : helper_result :=
   match raw with
   | [] => HReturn
@@ -321,20 +330,39 @@ Fixpoint hm_set (name ip : bytes) (hm : list (bytes * bytes)) : list (bytes * by
     else (n, i) :: hm_set name ip tl
   end.
 
-Definition READLINE_LIMIT : N := 128.          (* = Gen.Consts.fw_readline_limit, checked in Props/C19.v *)
+(* the limit of the helper as found (readline(128)); only the `_asfound` statements use it *)
+Definition READLINE_LIMIT_ASFOUND : N := 128.
 
-(* the helper fed the HOST lines the client wrote, one readline each *)
-Fixpoint helper_run (hm : list (bytes * bytes)) (raws : list bytes)
+(* the helper's loop over the successive results of readline; the second component
+   is None while the helper is still waiting for input (all of it was HOST records) *)
+Fixpoint helper_reads (hm : list (bytes * bytes)) (raws : list bytes)
   : list (bytes * bytes) * option helper_result :=
   match raws with
   | [] => (hm, None)
   | r :: rs =>
-    if READLINE_LIMIT <? lenN r then (hm, Some HSplit) else
     match helper_line r with
-    | HSet name ip => helper_run (hm_set name ip hm) rs
+    | HSet name ip => helper_reads (hm_set name ip hm) rs
     | other => (hm, Some other)                 (* the helper stopped here *)
     end
   end.
+
+(* the pipe carries the concatenated writes of the client (sethostip: one write per
+   HOST line); the helper cuts it with readline(lim) *)
+Definition helper_stdin (lim : option N) (ls : list bytes) : list bytes :=
+  DialogueLib.chunks lim (concat ls).
+
+(* the helper fed the HOST lines `ls` the client wrote *)
+Definition helper_run (lim : option N) (hm : list (bytes * bytes)) (ls : list bytes)
+  : list (bytes * bytes) * option helper_result :=
+  helper_reads hm (helper_stdin lim ls).
+
+(* specification vocabulary: a written line fits one read of the helper *)
+Definition line_fits (lim : option N) (l : bytes) : Prop :=
+  match lim with None => True | Some n => lenN l <= n end.
+
+(* the host map after the records `recs` have each been delivered once, in order *)
+Definition delivered (hm : list (bytes * bytes)) (recs : list (bytes * bytes)) : list (bytes * bytes) :=
+  fold_left (fun m r => hm_set (fst r) (snd r) m) recs hm.
 
 Definition hosts_lines (marker : bytes) (hm : list (bytes * bytes)) : list bytes :=
   map (fun e => hosts_line marker (fst e) (snd e)) hm.
